@@ -478,7 +478,44 @@ def run_c02(ctx):
     envcorr.check_termination(ctx, ad, episodes_quick=300, episodes_thorough=3000)
     _variant_sweep(ctx, ad, "C02", extra_pad=3, per_variant_thorough=20)
     _bfs_tiny(ctx, ad, "C02", insts_quick=20, insts_thorough=80)
+    _generator_instances_finish(ctx)
     _replay_idle_witness(ctx, ad)
+
+
+def _generator_instances_finish(ctx):
+    """the conclusion of the chain generator ⇒ `wf` ⇒ `steps_le` (`Rl4co.Mtvrp.gen_steps_le`) on REAL generator output
+    (float32, every preset, mixed batches): every mask-confined episode is finished within 2n+1 steps, no dead end, and
+    each customer is servable on its own at reset (the float image of `servable`)"""
+    from rl4co.envs.routing.mtvrp.env import MTVRPEnv
+    from rl4co.envs.routing.mtvrp.generator import MTVRPGenerator, VARIANT_GENERATION_PRESETS
+
+    presets = list(VARIANT_GENERATION_PRESETS.keys())
+    reps = ctx.budget(1, 6)
+    for rep in range(reps):
+        for preset in presets:
+            n = ctx.rng.choice([5, 10, 20])
+            torch.manual_seed(ctx.rng.randrange(1 << 30))
+            gen = MTVRPGenerator(num_loc=n, variant_preset=preset)
+            env = MTVRPEnv(generator=gen, check_solution=False)
+            td0 = gen(batch_size=[8])
+            td = env.reset(td0.clone())
+            if not bool(td["action_mask"][:, 1:].all()):
+                ctx.violation("mtvrp:generated-customer-not-servable", "a customer of a generated instance is not offered at reset",
+                              {"preset": preset, "n": n, "mask": [rl.mask_str(m) for m in td["action_mask"]]})
+            try:
+                ep = rl.run_episode(env, td0, lambda r, t, feas: ctx.rng.choice(feas), max_steps=4 * n + 10)
+            except RuntimeError as e:
+                ctx.violation("mtvrp:no-termination", f"generated instances (preset {preset}): {e}", {"preset": preset, "n": n})
+                continue
+            ctx.count(f"mtvrp.generated.preset={preset}")
+            for r in range(8):
+                ctx.case(("mtvrp", "generated", preset, n, rep, r))
+                d = ep.done[r]
+                if 1 not in d or d.index(1) > 2 * n + 1:
+                    ctx.violation("mtvrp:step-bound", "generated instance not finished within 2n+1 steps",
+                                  {"preset": preset, "n": n, "actions": ep.actions[r]})
+            for (r, t) in ep.empty_mask_rows:
+                ctx.violation("mtvrp:dead-end", "generated instance: a row is offered no action", {"preset": preset, "n": n, "row": r, "step": t})
 
 
 def _replay_idle_witness(ctx, ad):
@@ -857,6 +894,14 @@ def _judge_cases(ctx, ad, env, cases):
         if (f["check"] == "1") != acc:
             ctx.disagreement("mtvrp: checker model differs from real checker",
                              {"inst": inst, "label": lab, "actions": sol, "real_accepts": acc, "model": f})
+        # Lean oracle `Spec.Mtvrp.Accepted` (= Feasible with exactly the three known omissions, `check_iff`): on a
+        # well-formed, statically admissible instance the REAL checker must accept exactly this set
+        if f.get("wf") == "1" and f.get("cStatic") == "1" and f.get("acc") in ("0", "1") and (f["acc"] == "1") != acc:
+            ctx.violation("mtvrp:checker-differs-from-accepted-set",
+                          "the real checker's verdict differs from Spec.Mtvrp.Accepted (feasibility up to the three known "
+                          "omissions: backhaul order, open-route depot deadline, trailing route's way back)",
+                          {"inst": inst, "variant": variant_of(inst), "label": lab, "actions": sol,
+                           "real_accepts": acc, "verdicts": f})
         if f.get("feas") == "1" and not acc:
             emit(ctx, "mtvrp:checker-rejects-feasible" + classify_reject(ctx, ad, inst, sol, f),
                           "the real checker raises for a solution that is feasible by the Lean Spec",
@@ -1034,6 +1079,147 @@ def _batch_capacity_cases(ctx, ad, env):
                           {"insts": insts, "actions": ep.actions, "batch": acc_batch, "rows": acc_rows})
 
 
+
+# ------------------------------------------------------------------------------------------------
+# C12 clause: forced start nodes of MTVRPEnv.select_start_nodes are feasible and distinct per instance
+# ------------------------------------------------------------------------------------------------
+def run_c12(ctx):
+    from rl4co.utils.ops import batchify
+
+    ad = CountingAdapter(ctx)
+    env = ad.make_env()
+    total = ctx.budget(40, 400)
+    for g in range(total):
+        n = ctx.rng.choice([1, 2, 3, 5, 8])
+        B = ctx.rng.choice([1, 2, 3, 5])
+        k = ctx.rng.choice([1, 2, n, n, max(1, n - 1), n + 1, 2 * n + 1])
+        insts = [ad.gen_instance(ctx.rng, n, ctx.rng.choice(ad.kinds())) for _ in range(B)]
+        td = env.reset(ad.to_td(insts))
+        sel = env.select_start_nodes(td, k).tolist()
+        f = parse_fields(ctx.driver.ask(f"mtvrp.starts {n} {B} {k}"))
+        model = [int(x) for x in f.get("starts", "").split(",") if x != ""]
+        ctx.case(("mtvrp", "starts", n, B, k, repr(insts)))
+        ctx.count(f"mtvrp.starts.{'k<=n' if k <= n else 'k>n'}")
+        if sel != model:
+            ctx.disagreement("mtvrp: select_start_nodes differs from the model", {"n": n, "B": B, "k": k, "real": sel, "model": model})
+            continue
+        tdk = batchify(td, k)  # k-major: copy s of instance b at row s * B + b
+        mask = tdk["action_mask"]
+        for row, a in enumerate(sel):
+            b = row % B
+            if not (1 <= a <= n) or not bool(mask[row, a]):
+                ctx.violation("mtvrp:start-infeasible", "a forced start node is not offered by the mask of its instance's reset state",
+                              {"inst": insts[b], "row": row, "start": a, "mask": rl.mask_str(mask[row]), "n": n, "B": B, "k": k})
+        if k <= n:
+            for b in range(B):
+                mine = [sel[s_ * B + b] for s_ in range(k)]
+                if len(set(mine)) != k:
+                    ctx.violation("mtvrp:start-duplicate", "forced starts of one instance are not pairwise distinct although k <= n",
+                                  {"inst": insts[b], "starts": mine, "n": n, "B": B, "k": k})
+        # the forced first step, then a mask-confined episode: still a feasible solution (C01 through the forced start)
+        if g % 4 == 0:
+            rep = [insts[r % B] for r in range(k * B)]
+            try:
+                td0, ep = envcorr.run_batch(ctx, ad, env, rep, forced=[[a] for a in sel])
+            except envcorr.EpisodeFailed:
+                continue
+            replies = ask_chunked(ctx, [ad.line("episode", rep[r], ep.actions[r]) for r in range(len(rep))])
+            for r in range(len(rep)):
+                fr = envcorr.compare_trace(ctx, ad, rep[r], ep.actions[r], ep.masks[r], ep.done[r], replies[r], "C12 forced start")
+                if fr.get("feas") == "0":
+                    ctx.violation("mtvrp:infeasible-episode", "episode with a forced start is infeasible by the Lean Spec",
+                                  {"inst": rep[r], "actions": ep.actions[r]})
+
+
+# ------------------------------------------------------------------------------------------------
+# C19 clause: load_data (scale flag) and the demand unit
+# ------------------------------------------------------------------------------------------------
+def to_td_raw(ad, insts):
+    """the same instances with demands and capacity in RAW units (what the generator writes with scale_demand=False)"""
+    td = ad.to_td(insts)
+    f32 = torch.float32
+    td["demand_linehaul"] = torch.tensor([[float(d) for d in i["dL"]] for i in insts], dtype=f32)
+    td["demand_backhaul"] = torch.tensor([[float(d) for d in i["dB"]] for i in insts], dtype=f32)
+    td["vehicle_capacity"] = torch.tensor([[float(i["C"] * i["capmul"])] for i in insts], dtype=f32)
+    td["capacity_original"] = torch.tensor([[float(i["C"] * i["capmul"])] for i in insts], dtype=f32)
+    return td
+
+
+def _same_episode(ctx, env, td_a, td_b, what, insts):
+    """drive both batches with the same (uniformly chosen) actions; returns the first difference or None"""
+    ta, tb = env.reset(td_a.clone()), env.reset(td_b.clone())
+    B = ta.batch_size[0]
+    for t in range(40 * (insts[0]["n"] + 2)):
+        ma, mb = ta["action_mask"], tb["action_mask"]
+        if not torch.equal(ma, mb):
+            r = int((ma != mb).any(-1).nonzero()[0])
+            return {"step": t, "row": r, "inst": insts[r], "mask_a": rl.mask_str(ma[r]), "mask_b": rl.mask_str(mb[r])}
+        if not torch.equal(ta["done"], tb["done"]):
+            return {"step": t, "done_a": ta["done"].flatten().tolist(), "done_b": tb["done"].flatten().tolist()}
+        if bool(ta["done"].all()):
+            return None
+        acts = [ctx.rng.choice([j for j, b in enumerate(ma[r].tolist()) if b]) for r in range(B)]
+        ta.set("action", torch.tensor(acts)); tb.set("action", torch.tensor(acts))
+        ta, tb = env.step(ta)["next"], env.step(tb)["next"]
+    return None
+
+
+def run_c19(ctx):
+    import tempfile
+    from rl4co.envs.routing.mtvrp.generator import MTVRPGenerator
+
+    ad = CountingAdapter(ctx)
+    env = ad.make_env()
+    total = ctx.budget(24, 200)
+    tmp = tempfile.mkdtemp(prefix="mtvrp_c19_")
+    try:
+        for g in range(total):
+            n = ctx.rng.choice([2, 3, 5, 8])
+            B = ctx.rng.choice([1, 2, 4])
+            cm = ctx.rng.choice([1, 2])
+            insts = [ad.gen_instance(ctx.rng, n, ctx.rng.choice(ad.kinds()), capmul=cm) for _ in range(B)]
+            if g == 0:  # minimal witness: demands 3 and 3, capacity 4
+                insts = [{"kind": "witness", "n": 2, "pts": [(0, 0), (128, 0), (256, 0)], "open": False, "speed_exp": 0, "C": 4,
+                          "capmul": 1, "dL": [0, 3, 3], "dB": [0, 0, 0], "limit": None, "early": [0, 0, 0],
+                          "late": [None, None, None], "service": [0, 0, 0]}]
+            td_norm, td_raw = ad.to_td(insts), to_td_raw(ad, insts)
+            ctx.case(("mtvrp", "c19", repr(insts)))
+            # (a) theorem env_scaleDem on the real code: raw units vs normalised units
+            diff = _same_episode(ctx, env, td_norm, td_raw, "unit", insts)
+            if diff is not None:
+                ctx.disagreement("mtvrp: the real env depends on the demand unit (model: env_scaleDem)", diff)
+            # (b) save / load round trip, scale=False: identical tensors, identical behaviour
+            path = os.path.join(tmp, f"g{g}.npz")
+            MTVRPGenerator.save_data(td_raw, path)
+            tl = env.load_data(path, scale=False)
+            for key in td_raw.keys():
+                if key not in tl.keys() or not torch.equal(tl[key], td_raw[key]):
+                    ctx.violation("mtvrp:load-data:roundtrip", f"key {key!r} differs after save_data / load_data(scale=False)",
+                                  {"insts": insts, "key": key})
+            diff = _same_episode(ctx, env, td_raw, tl, "roundtrip", insts)
+            if diff is not None:
+                ctx.violation("mtvrp:load-data:roundtrip", "masks differ after save_data / load_data(scale=False)", diff)
+            # (c) scale=True: demands divided by capacity_original (model `loadDemand`) …
+            ts = env.load_data(path, scale=True)
+            for key in ("demand_linehaul", "demand_backhaul"):
+                want = td_raw[key] / td_raw["capacity_original"]
+                if not torch.equal(ts[key], want):
+                    ctx.disagreement("mtvrp: load_data(scale=True) demand differs from demand / capacity_original",
+                                     {"key": key, "insts": insts})
+            ctx.count(f"mtvrp.c19.loaded-capacity={'1' if bool((ts['vehicle_capacity'] == 1).all()) else 'raw'}")
+            # … and the loaded instance must still be the stored problem (same masks along any action sequence)
+            diff = _same_episode(ctx, env, td_raw, ts, "scaled", insts)
+            if diff is not None:
+                emit(ctx, "mtvrp:load-data-scale:capacity-not-normalised",
+                     "load_data(scale=True) divides the demands by capacity_original but leaves vehicle_capacity (which _reset "
+                     "takes from the data) unchanged: the loaded instance has different masks than the stored one",
+                     dict(diff, vehicle_capacity_loaded=ts["vehicle_capacity"].flatten().tolist(),
+                          demand_loaded=ts["demand_linehaul"].tolist()))
+    finally:
+        import shutil
+        shutil.rmtree(tmp, ignore_errors=True)
+
+
 MODEL_NOTE = ("MTVRPEnv modelled per instance over integer ticks (Rl4co/Env/Mtvrp.lean), one model for all 16 variants "
               "(feature valuation: open_route, finite/infinite distance_limit, finite/infinite time windows, backhaul demands); "
               "`inf` is `none : Option Int`; coordinates→distance arithmetic, `distance / speed` and float32 rounding are outside "
@@ -1057,21 +1243,28 @@ NO_THM = "no theorem yet: correspondence + spec oracle only"
 register(Unit("C01", "mtvrp", run_c01, drivers=["drv_mtvrp"],
               lean_modules=["Rl4co.Props.C01.Mtvrp"],
               theorems=[Theorem("Rl4co.Mtvrp.feasible_of_run", "proved",
-                                "every mask-confined finished MTVRP episode is Spec-feasible, for every feature valuation (all 16 variants)")],
+                                "every mask-confined finished MTVRP episode is Spec-feasible, for every feature valuation (all 16 variants)"),
+                        Theorem("Rl4co.Mtvrp.step_def", "proved", "translator tie: `_step` (reset guard `!=`, clock `distance / speed`) as extracted = the plain form used by the proofs"),
+                        Theorem("Rl4co.Mtvrp.mask_def", "proved", "translator tie: depot rule `~((curr_node == 0) & (sum > 0))` as extracted = the plain form")],
               assumptions=[MODEL_NOTE]))
 register(Unit("C02", "mtvrp", run_c02, drivers=["drv_mtvrp"],
-              lean_modules=["Rl4co.Props.C02.Mtvrp"],
+              lean_modules=["Rl4co.Props.C02.Mtvrp", "Rl4co.Props.C18.MtvrpWf"],
               theorems=[Theorem("Rl4co.Mtvrp.mask_nonempty", "proved", "every state offers an action"),
                         Theorem("Rl4co.Mtvrp.done_stable", "proved", "done is absorbing"),
                         Theorem("Rl4co.Mtvrp.steps_le", "proved",
                                 "an unfinished mask-confined run has at most 2n+1 steps (wf instance: every customer servable on its own, "
                                 "deadlines/capacity/limit may be met with equality)"),
-                        Theorem("Rl4co.Mtvrp.progress", "proved", "an unfinished reachable state has an admitted action and stays inside the bound")],
-              assumptions=[MODEL_NOTE]))
+                        Theorem("Rl4co.Mtvrp.progress", "proved", "an unfinished reachable state has an admitted action and stays inside the bound"),
+                        Theorem("Rl4co.Mtvrp.gen_wf_mtvrp", "proved",
+                                "generator post-conditions (C18: mtvrp_window, distance-limit assertion, demands_kind), scaled to ticks ⇒ wf"),
+                        Theorem("Rl4co.Mtvrp.gen_steps_le", "proved", "generator ⇒ wf ⇒ every episode on a generated instance finishes within 2n+1 steps"),
+                        Theorem("Rl4co.Mtvrp.gen_progress", "proved", "… and an unfinished state of a generated instance always has an admitted action")],
+              assumptions=[MODEL_NOTE, "the chain's conclusion is also run on real generator output (float32, every preset)"]))
 register(Unit("C03", "mtvrp", run_c03, drivers=["drv_mtvrp"],
               lean_modules=["Rl4co.Props.C03.Mtvrp"],
               theorems=[Theorem("Rl4co.Mtvrp.reward_eq_objective", "proved",
-                                "reward = −(sum of route lengths, return legs not charged for open routes) for every action list")],
+                                "reward = −(sum of route lengths, return legs not charged for open routes) for every action list"),
+                        Theorem("Rl4co.Mtvrp.reward_def", "proved", "translator tie: roll shift −1 and `(go_to == 0) & open_route` as extracted = the roll idiom used by the proof")],
               assumptions=[MODEL_NOTE]))
 register(Unit("C04", "mtvrp", run_c04, drivers=["drv_mtvrp"],
               lean_modules=["Rl4co.Props.C04.Mtvrp"],
@@ -1082,7 +1275,10 @@ register(Unit("C05", "mtvrp", run_c05, drivers=["drv_mtvrp"],
               lean_modules=["Rl4co.Props.C05.Mtvrp"],
               theorems=[Theorem("Rl4co.Mtvrp.run_of_feasible", "proved",
                                 "every canonical Spec-feasible solution (equality allowed on deadlines, capacities and the distance limit) is a "
-                                "mask-confined finished run (wf + metric instance; all feature valuations)")],
+                                "mask-confined finished run (wf + metric instance; all feature valuations)"),
+                        Theorem("Rl4co.Mtvrp.reach_same_objective", "proved", "every feasible solution (any shape) has a mask-reachable finished run of the same objective"),
+                        Theorem("Rl4co.Mtvrp.opt_reachable", "proved", "∃ finished mask-confined run attaining the optimum over ALL feasible solutions ∧ no finished run is better"),
+                        Theorem("Rl4co.Mtvrp.reward_set_eq", "proved", "rewards reachable through the mask = { −objective bs | bs feasible }")],
               assumptions=[MODEL_NOTE, "Canonical = no depot→depot move and at least one depot visit (the documented pruning)"]))
 register(Unit("C06", "mtvrp", run_c06, drivers=["drv_mtvrp"],
               lean_modules=["Rl4co.Props.C06.Mtvrp"],
@@ -1093,7 +1289,24 @@ register(Unit("C06", "mtvrp", run_c06, drivers=["drv_mtvrp"],
                         Theorem("Rl4co.Mtvrp.check_complete_counterexample_open", "proved", "¬ completeness: depot deadline applied to open routes"),
                         Theorem("Rl4co.Mtvrp.check_sound_counterexample", "proved", "¬ soundness: backhaul-before-linehaul accepted"),
                         Theorem("Rl4co.Mtvrp.check_sound_counterexample_final_leg", "proved", "¬ soundness: last route's way back not tested without a final depot"),
-                        Theorem("Rl4co.Mtvrp.checkBatch_eq_all", "proved", "batched checker = conjunction of the row-wise checkers, for any capacities")],
+                        Theorem("Rl4co.Mtvrp.checkBatch_eq_all", "proved", "batched checker = conjunction of the row-wise checkers, for any capacities"),
+                        Theorem("Rl4co.Mtvrp.check_iff", "proved",
+                                "checker accepts ⇔ Spec.Mtvrp.Accepted (= Feasible with exactly the three known omissions): the accepted set, exactly"),
+                        Theorem("Rl4co.Mtvrp.check_iff_feasible", "proved", "when the three omissions cannot matter the checker decides feasibility exactly"),
+                        Theorem("Rl4co.Mtvrp.accepted_iff_feasible", "proved", "… and Accepted = Feasible")],
               assumptions=[MODEL_NOTE, "FINDINGS (not fixed upstream): the checker applies the depot deadline to open routes, never tests the "
                            "backhaul order, and does not test the last route's way back when the list does not end at the depot; each has a "
                            "Lean counterexample, a partial theorem and a witness replayed on the real code"]))
+register(Unit("C12", "mtvrp", run_c12, drivers=["drv_mtvrp"],
+              lean_modules=["Rl4co.Props.C12.Mtvrp"],
+              theorems=[Theorem("Rl4co.Mtvrp.startNode_row", "proved", "copy s of instance b (row s·B + b) is forced to start at customer s mod n + 1"),
+                        Theorem("Rl4co.Mtvrp.startNode_range", "proved", "every forced start is a customer index in 1..n"),
+                        Theorem("Rl4co.Mtvrp.startNode_distinct", "proved", "the k ≤ n forced starts of one instance are pairwise distinct"),
+                        Theorem("Rl4co.Mtvrp.start_admitted", "proved", "on a wf instance every forced start is offered by the mask of the reset state (all variants)")],
+              assumptions=[MODEL_NOTE, "select_start_nodes override of MTVRPEnv modelled as `startNode`; modulus and offset extracted from the source"]))
+register(Unit("C19", "mtvrp", run_c19, drivers=["drv_mtvrp"],
+              lean_modules=["Rl4co.Props.C19.Mtvrp"],
+              theorems=[Theorem("Rl4co.Mtvrp.load_data_demand", "proved", "load_data: demand / capacity_original with scale=True, unchanged otherwise"),
+                        Theorem("Rl4co.Mtvrp.feasible_scaleDem", "proved", "rescaling both demand kinds and the capacity by k > 0 keeps the feasible set"),
+                        Theorem("Rl4co.Mtvrp.env_scaleDem", "proved", "… and masks, finishing step and reward along every action list")],
+              assumptions=[MODEL_NOTE, "FINDING: load_data(scale=True) does not rescale vehicle_capacity (replayed on the real code)"]))
